@@ -339,3 +339,87 @@ def _table_case(case, rng):
         got = {e: float(p) for e, p in zip(m.support, m.probs)}
         ok = all(abs(got.get(k, 0.0) - v) <= 1e-9 for k, v in ref.items()) and abs(sum(got.values()) - 1.0) <= 1e-9
         case.check(ok, "marginalize-does-not-sum-merged-rows", lambda: f"got {got!r} want {ref!r}", **facts)
+    # ---- the other documented projection forms: list of variables, a variable name as key, an expression string; t[proj] --
+    tops = sorted({p_[0] for p_ in pa})
+    top = rng.choice(tops)
+    rowsA = [nest(r) for r in ra]
+
+    def canon(v):
+        return tuple(sorted(flatten(v).items())) if isinstance(v, dict) else ("__leaf__", v)
+    # (the docstring also lists "a list" and "a dictionary key": a list raises TypeError inside eval() and a key only works
+    # when it is an identifier string, i.e. the expression form; neither is part of C18's statement, so they are not judged)
+    forms = [("string", top, lambda e: e[top]), ("callable-dict", (lambda e: {top: e[top]}), lambda e: {top: e[top]})]
+    for fname, proj, reff in forms:
+        for via in ("marginalize", "getitem"):
+            if via == "getitem" and rng.random() < 0.5:
+                continue
+            got_t = case.call(f"marginalize({fname} projection)", (A.marginalize if via == "marginalize" else A.__getitem__), proj,
+                              facts=dict(facts, projection=fname, via=via))
+            case.count("projection_forms_checked")
+            if got_t is case.FAIL:
+                continue
+            ref = {}
+            for r, x in zip(rowsA, wa):
+                k = canon(reff(r))
+                ref[k] = ref.get(k, 0.0) + x
+            got = {}
+            for e, pr_ in zip(got_t.support, got_t.probs):
+                got[canon(e)] = got.get(canon(e), 0.0) + float(pr_)
+            ok = set(k for k, v in got.items() if v > 0) == set(k for k, v in ref.items() if v > 0) \
+                and all(abs(got.get(k, 0.0) - v) <= 1e-9 for k, v in ref.items())
+            case.check(ok, "marginalize-does-not-sum-merged-rows", lambda: f"{fname} projection {proj!r} via {via}: got {got!r} want {ref!r}",
+                       **dict(facts, projection=fname))
+    # ---- scaling by a number, Z, normalize, and the read accessors ----------------------------------------------------------
+    num = rng.choice([0.25, 0.5, 2.0, 3.0])
+    tot_raw = math.fsum(rawa)
+    for label, fn_, factor in (("t*num", lambda: A * num, num), ("num*t", lambda: num * A, num), ("t/num", lambda: A / num, 1.0 / num)):
+        sc = case.call(label, fn_, facts=facts)
+        case.count("scalings_checked")
+        if sc is case.FAIL:
+            continue
+        case.check(list(sc.support) == list(A.support), f"scaling-changes-the-rows", f"{label}", **facts)
+        z = case.call("Z", lambda: float(sc.Z), facts=facts)
+        if z is not case.FAIL:
+            case.check(abs(z - factor * tot_raw) <= 1e-9 * max(1.0, factor * tot_raw), "scaling-does-not-multiply-the-total-weight",
+                       f"{label}: Z={z!r} want {factor * tot_raw!r}", **facts)
+        case.check(all(abs(float(a_) - float(b_)) <= 1e-12 for a_, b_ in zip(sc.probs, A.probs)), "scaling-changes-normalised-probabilities",
+                   f"{label}: {list(map(float, sc.probs))!r} vs {list(map(float, A.probs))!r}", **facts)
+    nz = case.call("normalize", A.normalize, facts=facts)
+    if nz is not case.FAIL:
+        z1 = case.call("Z(normalized)", lambda: float(nz.Z), facts=facts)
+        if z1 is not case.FAIL:
+            case.check(abs(z1 - 1.0) <= 1e-9, "normalize-does-not-give-total-weight-1", f"Z={z1!r}", **facts)
+        case.check(all(abs(math.exp(l_) - w_) <= 1e-9 for l_, w_ in zip(nz.logits, wa)), "normalize-weights-are-not-the-probabilities",
+                   f"{[math.exp(l_) for l_ in nz.logits]!r} vs {wa!r}", **facts)
+    def acc():
+        bad = []
+        pos = [(r, x) for r, x in zip(rowsA, wa) if x > 0]
+        items = list(A.items())
+        if len(items) != len(pos) or any(canon(e) != canon(r) or abs(float(p_) - x) > 1e-12 for (e, p_), (r, x) in zip(items, pos)):
+            bad.append("items")
+        if len(A) != len(ra) or len(A.keys()) != len(ra):
+            bad.append("len/keys")
+        if any(abs(float(A.prob(r)) - x) > 1e-12 for r, x in zip(rowsA, wa)):
+            bad.append("prob(row)")
+        if A.prob({"__nowhere__": 1}) != 0:
+            bad.append("prob(missing)")
+        if not bool(A.isclose(A * 1.0)):
+            bad.append("isclose(self*1)")
+        return bad
+    r_ = case.call("accessors", acc, facts=facts)
+    case.count("accessor_sets_checked")
+    if r_ is not case.FAIL:
+        case.check(not r_, "table-accessors-disagree-with-rows-and-probabilities", f"{r_!r}: rows {rowsA!r} probs {wa!r}", **facts)
+    # ---- no operation may change its operands: rows, weights, and the product recomputed after everything above -----------
+    case.count("operand_purity_checks")
+    for t_, rows_, w_, nm in ((A, ra, wa, "A"), (B, rb, wb, "B")):
+        same_rows = len(t_.support) == len(rows_) and all(canon(e) == canon(nest(r)) for e, r in zip(t_.support, rows_))
+        same_w = all(abs(float(g) - x) <= 1e-12 for g, x in zip(t_.probs, w_))
+        case.check(same_rows and same_w, "operation-changed-its-operand",
+                   lambda: f"{nm}: rows now {list(t_.support)!r} (were {[nest(r) for r in rows_]!r}), probs {list(map(float, t_.probs))!r}", **facts)
+    if prod is not case.FAIL:
+        prod2 = case.call("product(again)", lambda: A & B, facts=facts)
+        if prod2 is not case.FAIL:
+            case.check(table_dict(prod2) == table_dict(prod), "product-differs-after-other-operations-on-the-same-tables",
+                       lambda: f"before {table_dict(prod)!r} after {table_dict(prod2)!r}", **facts)
+
